@@ -11,7 +11,7 @@
    Dict, Relation, UnionSet, GenericSet, True/Empty) are tied to this semantics
    by the correspondence run, which compares the denotation of every
    implementation result with [run_data]. *)
-From Arrai Require Import Base.Val Spec.SetAlg Eval.Interp Proofs.ValOrder Proofs.SetAlgP Sys.Heap Rep.SeqRep Proofs.WfP.
+From Arrai Require Import Base.Val Spec.SetAlg Eval.Interp Proofs.ValOrder Proofs.SetAlgP Sys.Heap Rep.SeqRep Proofs.WfP Proofs.WhereP.
 
 Theorem C01_order_is_total_and_eq_is_identity :
   forall a b c, vcmp a a = Eq /\ (vcmp a b = Eq -> a = b) /\
@@ -127,3 +127,21 @@ Theorem C01_operands_are_canonical :
   forall n rho e v, EWF rho -> eval n rho e = Ok (D v) -> Canon v.
 Proof. exact eval_canonical. Qed.
 Print Assumptions C01_operands_are_canonical.
+
+(* where and => are the comprehensions {x in A | p x} and {f x | x in A}: no member is dropped,
+   duplicated or altered, for every operand (whatever produced it), function, scope and fuel *)
+Theorem C01_where_is_comprehension :
+  forall fuel rho a fn l cenv p body r,
+    eval fuel rho a = Ok (D (VSet l)) -> eval fuel rho fn = Ok (Clos cenv p body) ->
+    eval (S fuel) rho (EWhere a fn) = Ok (D r) ->
+    exists m, r = VSet m /\ forall x, In x m <-> In x l /\ clos_pred fuel cenv p body x = Ok true.
+Proof. exact where_is_comprehension. Qed.
+Print Assumptions C01_where_is_comprehension.
+
+Theorem C01_darrow_is_image :
+  forall fuel rho a fn l cenv p body r,
+    eval fuel rho a = Ok (D (VSet l)) -> eval fuel rho fn = Ok (Clos cenv p body) ->
+    eval (S fuel) rho (EDArrow a fn) = Ok (D r) ->
+    exists m, r = VSet m /\ ssorted m /\ forall y, In y m <-> exists x, In x l /\ clos_img fuel cenv p body x = Ok y.
+Proof. exact darrow_is_image. Qed.
+Print Assumptions C01_darrow_is_image.
